@@ -35,7 +35,54 @@ def decoder_universe():
                          field(7, "default", L(L(T("i16")))), field(8, "default", M(T("i8"), L(T("string"))))], unk=True)
     defs["Re"] = struct([field(1, "default", T("i32")), field(2, "optional", ST("Re", True)),
                          field(3, "default", L(ST("Re", True)))])
+    # large well-formed containers of every element family (time and memory proportional to the input)
+    defs["Big"] = struct([field(1, "default", SET(T("i64"))), field(2, "default", L(T("string"))), field(3, "default", M(T("i32"), T("i64"))),
+                          field(4, "default", L(ST("Leaf", True))), field(5, "default", L(T("i32"))), field(6, "default", SET(T("string"))),
+                          field(7, "default", M(T("string"), T("string"))), field(8, "default", L(ST("Leaf", False))), field(9, "default", L(T("binary"))),
+                          field(10, "default", M(T("i64"), ST("Leaf", True))), field(11, "default", SET(T("i32"))), field(12, "default", L(L(T("i16"))))])
     return U.with_defaults(defs)
+
+
+STR12 = [{"lit": [0, 0, 0, 12]}, {"ctr": 8}, {"lit": [97, 98, 99, 100]}]
+LEAF = [{"lit": [8, 0, 1]}, {"ctr": 4}, {"lit": [0]}]
+# shape -> (field id, container header without the count, element parts)
+SHAPES = {
+    "set_i64": (1, [14, 0, 1, 10], [{"ctr": 8}]),
+    "list_string": (2, [15, 0, 2, 11], STR12),
+    "map_i32_i64": (3, [13, 0, 3, 8, 10], [{"ctr": 4}, {"ctr": 8}]),
+    "list_pstruct": (4, [15, 0, 4, 12], LEAF),
+    "list_i32": (5, [15, 0, 5, 8], [{"ctr": 4}]),
+    "set_string": (6, [14, 0, 6, 11], STR12),
+    "map_string_string": (7, [13, 0, 7, 11, 11], STR12 + STR12),
+    "list_vstruct": (8, [15, 0, 8, 12], LEAF),
+    "list_binary": (9, [15, 0, 9, 11], STR12),
+    "map_i64_pstruct": (10, [13, 0, 10, 10, 12], [{"ctr": 8}] + LEAF),
+    "set_i32": (11, [14, 0, 11, 8], [{"ctr": 4}]),
+    "list_list_i16": (12, [15, 0, 12, 15], [{"lit": [6, 0, 0, 0, 2]}, {"ctr": 2}, {"ctr": 2}]),
+}
+
+
+def build_scaled(shape, count):
+    """the same builder as harness/driver/scale.go"""
+    fid, prefix, parts = SHAPES[shape]
+    out = list(prefix) + list(count.to_bytes(4, "big"))
+    for i in range(count):
+        for p in parts:
+            out += list(i.to_bytes(8, "big"))[8 - p["ctr"]:] if "ctr" in p else p["lit"]
+    return out + [0]
+
+
+def scale_scenarios(prop, quick):
+    scen = []
+    base = 3000 if quick else 8000
+    for shape, (fid, prefix, parts) in SHAPES.items():
+        steps = [{"op": "decode", "ty": "Big", "in": build_scaled(shape, n), "dest": "fresh"} for n in (0, 1, 3)]   # checked byte by byte
+        steps.append({"op": "scale", "ty": "Big", "shape": shape, "prefix": prefix, "elem": parts, "suffix": [0], "counts": [base, base * 4, base * 16]})
+        # afterwards, on the same recycled decoder state: a small message many times
+        steps.append({"op": "repeat", "ty": "Big", "in": build_scaled(shape, 20), "times": 3000 if quick else 60000})
+        sid = "C05-scale-" + shape
+        scen.append({"sid": sid, "prop": prop, "vals": [], "steps": steps, "tags": ["scale", shape], "dkey": sid})
+    return scen
 
 
 thorough_values = False
@@ -136,6 +183,7 @@ def run(prop, tier, seed, work):
     for i in range(0, len(steps), 200):
         sid = "C05-gofuzz-%d" % i
         scen.append({"sid": sid, "prop": prop, "vals": [], "steps": steps[i:i + 200], "tags": ["go-fuzz"], "dkey": sid})
+    scen.extend(scale_scenarios(prop, quick))
     res.extra["inputs"] = len(seen)
     batches = [Batch("mutations", defs, scen)]
     suite.run_batches(res, work, batches)
